@@ -534,8 +534,43 @@ func (r *yieldRewriter) rewriteSwitchStmt(
 		X.Block(cases...),
 	)
 	children = r.combineIfNecessary(children)
+	if targetedBy(body, token.BREAK) {
+		// a break of this switch may end up inside a continuation thunk, where it
+		// becomes the Break signal: stop that signal at the switch
+		//	return Breakable(Delay(func() Seq[T] { switch ...; return Normal() }))
+		inner := mkBlock(kindDelay)
+		inner.push(switchStmt, kindSwitch)
+		r.generateLastNormalIfNecessary(inner)
+		children.pushReturn(r.SeqCall(cstBreakable, r.CallDelay(inner.block)), kindCombine)
+		return children
+	}
 	children.push(switchStmt, kindSwitch)
 	return children
+}
+
+// targetedBy reports whether the body of a switch (tok == BREAK) or of a loop
+// (tok == CONTINUE) contains an unlabelled branch statement that targets it.
+func targetedBy(body *ast.BlockStmt, tok token.Token) (yes bool) {
+	var visit func(n ast.Node) bool
+	visit = func(n ast.Node) bool {
+		switch n := n.(type) {
+		case *ast.FuncLit:
+			return false
+		case *ast.ForStmt, *ast.RangeStmt:
+			return false // both break and continue inside target the inner loop
+		case *ast.SwitchStmt, *ast.TypeSwitchStmt, *ast.SelectStmt:
+			if tok == token.BREAK {
+				return false
+			}
+		case *ast.BranchStmt:
+			yes = yes || (n.Tok == tok && n.Label == nil)
+		}
+		return !yes
+	}
+	for _, stmt := range body.List {
+		ast.Inspect(stmt, visit)
+	}
+	return
 }
 
 func (r *yieldRewriter) rewriteForStmt(
